@@ -32,15 +32,27 @@ type zzManager struct {
 
 func (m *zzManager) GetClient() client.Client { return m.c }
 
-var zzContents = []string{"step-a", "step-b", "step-c"}
+// contents: distinct specs, and one that differs from the first only in a
+// label of the Composition (a label-only edit); the quick tier uses the first three
+var zzContents = []string{"step-a|", "step-b|", "step-a|staging", "step-c|"}
 
-// zzComposition returns the Composition with content k (distinct specs).
+var zzSteps = []string{"step-a", "step-b", "step-a", "step-c"}
+
+// zzContentOf identifies a content by its spec and its channel label.
+func zzContentOf(step string, labels map[string]string) string {
+	return step + "|" + labels["channel"]
+}
+
+// zzComposition returns the Composition with content k.
 func zzComposition(k int) *v1.Composition {
 	c := &v1.Composition{ObjectMeta: metav1.ObjectMeta{Name: zzCompName, UID: zzCompUID}}
 	c.Spec.CompositeTypeRef = v1.TypeReference{APIVersion: "example.org/v1", Kind: "XR"}
 	mode := v1.CompositionModePipeline
 	c.Spec.Mode = &mode
-	c.Spec.Pipeline = []v1.PipelineStep{{Step: zzContents[k], FunctionRef: v1.FunctionReference{Name: "fn"}}}
+	c.Spec.Pipeline = []v1.PipelineStep{{Step: zzSteps[k], FunctionRef: v1.FunctionReference{Name: "fn"}}}
+	if k == 2 {
+		c.Labels = map[string]string{"channel": "staging"}
+	}
 	return c
 }
 
@@ -64,7 +76,7 @@ func zzStored(s *kube.Store) []zzRev {
 		}
 		content := ""
 		if len(r.Spec.Pipeline) == 1 {
-			content = r.Spec.Pipeline[0].Step
+			content = zzContentOf(r.Spec.Pipeline[0].Step, r.GetLabels())
 		}
 		out = append(out, zzRev{name: name, content: content, number: r.Spec.Revision,
 			controlled: kube.ControllerUID(doc) == zzCompUID, hash: r.GetLabels()[v1.LabelCompositionHash]})
@@ -77,7 +89,7 @@ func zzSetup(nMax int) (*kube.Store, *v1.Composition, []zzRev) {
 	s.Register(&v1.Composition{}, &v1.CompositionList{}, zzGroup, "Composition")
 	s.Register(&v1.CompositionRevision{}, &v1.CompositionRevisionList{}, zzGroup, "CompositionRevision")
 
-	cur := zz.Choose("content", len(zzContents))
+	cur := zz.Choose("content", zz.Bound(3, 4))
 	comp := zzComposition(cur)
 	s.Put(comp)
 
@@ -86,7 +98,7 @@ func zzSetup(nMax int) (*kube.Store, *v1.Composition, []zzRev) {
 	used := map[int]bool{}
 	for i := 0; i < n; i++ {
 		nm := "rev" + string(rune('0'+i))
-		k := zz.Choose(nm+".content", len(zzContents))
+		k := zz.Choose(nm+".content", zz.Bound(3, 4))
 		// history invariant: each distinct content was captured exactly once
 		zz.Assume(!used[k])
 		used[k] = true
@@ -110,7 +122,7 @@ func zzSetup(nMax int) (*kube.Store, *v1.Composition, []zzRev) {
 
 func zzCheckPost(s *kube.Store, comp *v1.Composition, pre []zzRev, tag string) {
 	post := zzStored(s)
-	curContent := comp.Spec.Pipeline[0].Step
+	curContent := zzContentOf(comp.Spec.Pipeline[0].Step, comp.GetLabels())
 	curHash := comp.Hash()[:63]
 	matches := 0
 	var cur zzRev
@@ -165,7 +177,7 @@ func zzCheckPost(s *kube.Store, comp *v1.Composition, pre []zzRev, tag string) {
 func HarnessC12Reconcile() {
 	s, comp, pre := zzSetup(zz.Bound(3, 3))
 	for _, o := range pre {
-		if o.content == comp.Spec.Pipeline[0].Step {
+		if o.content == zzContentOf(comp.Spec.Pipeline[0].Step, comp.GetLabels()) {
 			zz.Cover("revert")
 		}
 		if !o.controlled {
